@@ -528,6 +528,9 @@ class PrimMixin:
         a, b = args
         if not (isinstance(a, Ref) and isinstance(b, Ref)):
             return False
+        ha, hb = st.get(a), st.get(b)
+        if type(ha).__name__ == "HBO" or type(hb).__name__ == "HBO":
+            return getattr(ha, "buf", a.id) == getattr(hb, "buf", b.id)
         return self.root(st, a) == self.root(st, b)
 
     def p_builtin_chunk_off(self, args, kw, st, fr, node):
@@ -1072,9 +1075,18 @@ class PrimMixin:
         self.use("ndarray.astype returns a fresh array (copy=True default)")
         return st.alloc(HArr(kind, n, t, org=org, fresh=True, unit=h.unit))
 
+    def nd_byteswap(self, args, kw, st, fr, node):
+        a = args[0]
+        inplace = kw.get("inplace", args[1] if len(args) > 1 else False)
+        if type(st.get(a)).__name__ != "HBO":
+            raise Unsupported("byteswap of an array without a byte-order model", node)
+        return self.bo_byteswap(a, inplace, st, fr, node)
+
     def nd_copy(self, args, kw, st, fr, node):
         a = args[0]
         h = st.get(a)
+        if type(h).__name__ == "HBO":
+            return self.bo_copy(a, st)
         if isinstance(h, HArr2):
             return st.alloc(HArr2(h.kind, h.n0, h.n1, h.data, fresh=True))
         n, t = self.arr_term(st, a)
